@@ -167,18 +167,25 @@ theorem rsp_decoded_tcp_roundtrip_fails :
   rw [hd'] at hd
   cases hd
 
-/-- the hypothesis `PduComplete .rsp b` of the custom theorem cannot be dropped: `07 01 02 03` decodes
+/-- the hypothesis `PduComplete .rsp b` of the custom theorem cannot be dropped: `16 01 02 03` decodes
     to a custom value (the response decoder takes every byte after an unmodelled code), but the
-    response table says a 0x07 PDU has two bytes — the re-encoded frame does not decode to it -/
+    response table says a 0x16 PDU has seven bytes — the re-encoded frame does not decode to it.
+    (The witness used to be `07 01 02 03`; 0x07 is a modelled response kind now and decodes to
+    `ReadExceptionStatus(1)`, a frameable kind.) -/
 theorem rsp_custom_needs_complete_witness :
-    Response.decode [0x07, 1, 2, 3] = .ok (.custom (FunctionCode.new 0x07) [1, 2, 3]) ∧
-    ¬ Spec.PduComplete .rsp [0x07, 1, 2, 3] ∧
-    Tcp.encodeResponse 7 1 (.ok (.custom (FunctionCode.new 0x07) [1, 2, 3])) (List.replicate 11 0) =
-      .ok (11, [0, 7, 0, 0, 0, 5, 1, 0x07, 1, 2, 3]) ∧
-    Tcp.decodeResponse [0, 7, 0, 0, 0, 5, 1, 0x07, 1, 2, 3] ≠
-      .ok (some (7, 1, .ok (.custom (FunctionCode.new 0x07) [1, 2, 3]))) := by
+    Response.decode [0x16, 1, 2, 3] = .ok (.custom (FunctionCode.new 0x16) [1, 2, 3]) ∧
+    ¬ Spec.PduComplete .rsp [0x16, 1, 2, 3] ∧
+    Tcp.encodeResponse 7 1 (.ok (.custom (FunctionCode.new 0x16) [1, 2, 3])) (List.replicate 11 0) =
+      .ok (11, [0, 7, 0, 0, 0, 5, 1, 0x16, 1, 2, 3]) ∧
+    Tcp.decodeResponse [0, 7, 0, 0, 0, 5, 1, 0x16, 1, 2, 3] ≠
+      .ok (some (7, 1, .ok (.custom (FunctionCode.new 0x16) [1, 2, 3]))) := by
   refine ⟨by decide +kernel, ?_, by decide +kernel, by decide +kernel⟩
   unfold Spec.PduComplete; decide +kernel
+
+/-- `07 01 02 03`: decoded as Read Exception Status (trailing bytes ignored), which re-encodes to `07 01` -/
+example : Response.decode [0x07, 1, 2, 3] = .ok (.readExceptionStatus 1) ∧
+    (Response.readExceptionStatus 1).Frameable ∧ (Response.readExceptionStatus 1).image = [0x07, 1] :=
+  ⟨by decide +kernel, trivial, rfl⟩
 
 /-! non-vacuity: a register response with an ODD byte count (the stray byte 0xEF is not part of the decoded
     value), a coil response (quantity 8 × byte count), a complete custom PDU -/
